@@ -247,7 +247,7 @@ BuiltAgrees(F, v) == ValueAgrees(F, v)
 
 OnCall(s, e) ==
     IF s.phase # "running" \/ Len(s.stack) = 0 THEN Flag(s, {"CONF"}, "user function called outside a running call")
-    ELSE IF s.cur.stopped THEN Flag(s, {"C03", "C11"}, "a user function is called although the error type answered stop and was never told to continue since")
+    ELSE IF s.cur.stopped THEN Flag(s, {"C03"}, "a user function is called although the error type answered stop and was never told to continue since")
     ELSE
     LET F == Top(s.stack)
         N == Nodes[F.n]
@@ -267,7 +267,9 @@ OnCall(s, e) ==
                          \* `map` on top of a default: the field's key is absent, what it must receive is the default (C08)
                          \cup (IF c.argk = "map" /\ F.val.t = "map" /\ ~\E j \in 1..Len(F.val.e) : RouteK(N, F.vi, F.fkeys, F.val.e[j].k) = c.fi THEN {"C08"} ELSE {}),
                  "a user function does not receive the value (key, accepted list, location) it must be called with")
-       ELSE IF F.brk \/ F.ph = "fin" THEN Flag(s1, {"C03", "C11"}, "a user function is called after the error type answered stop or after a failure")
+       \* after a stop the work must end (C03); the function still only sees a good value, once (C11 is not about stopping)
+       ELSE IF F.brk THEN Flag(s1, {"C03"}, "a user function is called after the error type answered stop")
+       ELSE IF F.ph = "fin" THEN Flag(s1, {"C03", "C11"}, "a user function is called after a failure of the value it belongs to")
        ELSE \* the function is not due now: twice, on a bad value, before its turn, for a present / known key ...
             LET fs == FieldsOfNode(N, F.vi)
                 ismiss == \E fi \in 1..Len(fs) : fs[fi].missfn = e.f
